@@ -3,7 +3,7 @@
    denotes.  (The table theorem all_shipped_follow_spec is the same statement computed on the
    408 shipped structs.) *)
 From Coq Require Import ZArith Lia ZifyN ZifyNat ZifyBool PeanoNat.
-From GM Require Import Bytes Result Codec X25 Crc Layout LayoutSpec CrcProofs SortProofs SignProofs GenProofs.
+From GM Require Import Bytes Result Codec X25 Crc Layout LayoutSpec CrcProofs SortProofs SignProofs GenProofs CodecProofs CodecIdem.
 Ltac Zify.zify_post_hook ::= Z.div_mod_to_equations.
 
 (* ---- the accepted shape ---- *)
@@ -30,14 +30,18 @@ Definition gofield_ok (g : gofield) : bool :=
           end
   end.
 
-Ltac fin := repeat split; first [reflexivity | lia | exact I].
+Ltac fin := repeat split; first [reflexivity | lia | exact I
+  | (match goal with |- context [match ?x with N0 => _ | Npos _ => _ end] => destruct x end; reflexivity)
+  | (unfold flen, elem_len, mlen, msize, byte_of_Z, u8; cbn [fd_isarr fd_golen fd_enum fd_type fd_alen mf_type mf_arr ftype_size];
+     repeat match goal with |- context [ftype_size ?t] => destruct t; try discriminate; cbn [ftype_size] end;
+     try rewrite Z.mod_small by lia; try rewrite N.mod_small by lia; lia)].
 
 (* ---- one field ---- *)
 Definition arr_bounds (m : mfield) : Prop := match mf_arr m with Some n => 1 <= n <= 255 | None => True end.
 
 Lemma init_field_spec i g : gofield_ok g = true ->
   exists f m, init_field i g = Ok f /\ def_field i g = Some m /\ field_matches f m = true /\ arr_bounds m /\
-              fd_index f = i /\ fd_ext f = bytes_eqb (g_tag_ext g) s_true.
+              fd_index f = i /\ fd_ext f = bytes_eqb (g_tag_ext g) s_true /\ flen f = N.to_nat (mlen m).
 Proof.
   unfold gofield_ok. intros H. apply andb_prop in H. destruct H as [H Ht]. apply andb_prop in H. destruct H as [Hn Ha].
   (* the name *)
@@ -123,13 +127,15 @@ Lemma init_fields_spec : forall gs i, forallb gofield_ok gs = true ->
   exists fs ms, init_fields i gs = Ok fs /\ def_fields i gs = Some ms /\
                 Forall2 fm fs ms /\ Forall arr_bounds ms /\ all2 field_matches fs ms = true /\
                 Forall (fun f => i <= fd_index f)%nat fs /\ decl_order fs /\
-                map fd_ext fs = map (fun g => bytes_eqb (g_tag_ext g) s_true) gs.
+                map fd_ext fs = map (fun g => bytes_eqb (g_tag_ext g) s_true) gs /\
+                Forall2 (fun f m => flen f = N.to_nat (mlen m)) fs ms /\
+                map fd_index fs = seq i (length fs).
 Proof.
   induction gs as [|g t IH]; intros i H.
   - exists [], []. repeat split; constructor.
   - cbn [forallb] in H. apply andb_prop in H. destruct H as [Hg Ht].
-    destruct (init_field_spec i g Hg) as (f & m & If & Df & Mf & Bf & Xf & Ef).
-    destruct (IH (S i) Ht) as (fs & ms & Ifs & Dfs & F2 & Bs & A2 & Lo & Do & Ex).
+    destruct (init_field_spec i g Hg) as (f & m & If & Df & Mf & Bf & Xf & Ef & Fl).
+    destruct (IH (S i) Ht) as (fs & ms & Ifs & Dfs & F2 & Bs & A2 & Lo & Do & Ex & Fls & Ix).
     exists (f :: fs), (m :: ms). cbn [init_fields def_fields]. rewrite If, Df. cbn [rbind]. rewrite Ifs, Dfs. cbn [rbind].
     split; [reflexivity|]. split; [reflexivity|]. split; [constructor; [apply fm_of_matches; exact Mf|exact F2]|].
     split; [constructor; assumption|]. split; [cbn [all2]; rewrite Mf; exact A2|].
@@ -137,7 +143,8 @@ Proof.
     + constructor; [lia|]. eapply Forall_impl; [|exact Lo]. cbn. intros a Ha. lia.
     + split.
       * cbn [decl_order]. split; [|exact Do]. eapply Forall_impl; [|exact Lo]. cbn. intros a Ha. lia.
-      * cbn [map]. rewrite Ef, Ex. reflexivity.
+      * split; [cbn [map]; rewrite Ef, Ex; reflexivity|]. split; [constructor; assumption|].
+        cbn [map length seq]. rewrite Xf, Ix. reflexivity.
 Qed.
 
 (* ---- the order ---- *)
@@ -273,7 +280,7 @@ Proof.
   unfold gostruct_ok. intros H D SZ BO.
   apply andb_prop in H. destruct H as [H Hx]. apply andb_prop in H. destruct H as [H Hf]. apply andb_prop in H. destruct H as [Hp Hu].
   destruct (skipn 7 (gs_name g)) as [|c0 r0] eqn:SK; [discriminate|].
-  destruct (init_fields_spec (gs_fields g) 0 Hf) as (fs & ms & If & Df & F2 & Bs & A2 & Lo & Do & Ex).
+  destruct (init_fields_spec (gs_fields g) 0 Hf) as (fs & ms & If & Df & F2 & Bs & A2 & Lo & Do & Ex & Fls & Ix).
   unfold def_of in D. rewrite Hp, Df, SK in D. inversion D; subst d. clear D. cbn [md_fields md_name] in *.
   unfold initialize. rewrite Hp. cbn [negb]. rewrite SK, (msg_go_to_def_snake c0 r0 Hu). cbn [rbind]. rewrite If. cbn [rbind].
   eexists. split; [reflexivity|].
@@ -303,3 +310,52 @@ Proof.
   intros H D S B. destruct (initialize_is_spec g d H D S B) as (c & I & M).
   unfold struct_follows_spec. rewrite I, D. exact M.
 Qed.
+
+(* ---- the codec of any accepted struct is well-formed: the C04 / C08 theorems apply to it ---- *)
+From Coq Require Import Sorting.Permutation.
+Lemma total_len_perm v2 l1 l2 : Permutation l1 l2 -> total_len v2 l1 = total_len v2 l2.
+Proof.
+  intros P. unfold total_len. induction P as [|x l1 l2 P IH|x y l|l1 l2 l3 P1 IH1 P2 IH2]; cbn [fold_right].
+  - reflexivity.
+  - rewrite IH. reflexivity.
+  - destruct (active v2 x), (active v2 y); lia.
+  - congruence.
+Qed.
+Lemma total_len_ext : forall fs ms, Forall2 (fun f m => flen f = N.to_nat (mlen m)) fs ms ->
+  total_len true fs = N.to_nat (spec_size_ext ms).
+Proof.
+  intros fs ms F. induction F as [|f m fs ms Hl F IH]; [reflexivity|].
+  cbn [total_len fold_right spec_size_ext]. fold (total_len true fs) (spec_size_ext ms). cbn [active orb]. rewrite Hl, IH. lia.
+Qed.
+Lemma total_len_base : forall fs ms, Forall2 (fun f m => flen f = N.to_nat (mlen m)) fs ms -> Forall2 fm fs ms ->
+  total_len false fs = N.to_nat (spec_size_base ms).
+Proof.
+  intros fs ms F. induction F as [|f m fs ms Hl F IH]; intros G; [reflexivity|]. inversion G as [|? ? ? ? Gf Gs]; subst.
+  cbn [total_len fold_right spec_size_base]. fold (total_len false fs) (spec_size_base ms). unfold active. cbn [orb].
+  rewrite (fm_ext f m Gf). destruct (mf_ext m); cbn [negb]; rewrite (IH Gs); [reflexivity|]. rewrite Hl. lia.
+Qed.
+
+Theorem accepted_struct_codec_wf g d c :
+  gostruct_ok g = true -> def_of g = Some d -> spec_size_ext (md_fields d) <= 255 -> initialize g = Ok c ->
+  codec_wf2 c /\ (N.to_nat (c_size_ext c) <= 255)%nat.
+Proof.
+  unfold gostruct_ok. intros H D SZ I.
+  apply andb_prop in H. destruct H as [H Hx]. apply andb_prop in H. destruct H as [H Hf]. apply andb_prop in H. destruct H as [Hp Hu].
+  destruct (skipn 7 (gs_name g)) as [|c0 r0] eqn:SK; [discriminate|].
+  destruct (init_fields_spec (gs_fields g) 0 Hf) as (fs & ms & If & Df & F2 & Bs & A2 & Lo & Do & Ex & Fls & Ix).
+  unfold def_of in D. rewrite Hp, Df, SK in D. inversion D; subst d. clear D. cbn [md_fields] in SZ.
+  unfold initialize in I. rewrite Hp in I. cbn [negb] in I. rewrite SK, (msg_go_to_def_snake c0 r0 Hu) in I. cbn [rbind] in I.
+  rewrite If in I. cbn [rbind] in I. inversion I; subst c. clear I.
+  pose proof (sort_perm fs) as SP.
+  rewrite (sizes_ext fs ms 0 F2 Bs) by (cbn; lia). rewrite N.add_0_l.
+  split; [split; [split|split]|].
+  - cbn [c_size_ext c_fields]. rewrite <- (total_len_perm true _ _ SP). rewrite (total_len_ext fs ms Fls). reflexivity.
+  - cbn [c_size_normal c_fields]. rewrite (sizes_base fs ms 0 F2 Bs) by (cbn; lia). rewrite N.add_0_l.
+    rewrite <- (total_len_perm false _ _ SP). rewrite (total_len_base fs ms Fls F2). reflexivity.
+  - cbn [c_fields]. apply (Permutation_NoDup (Permutation_map fd_index SP)). rewrite Ix. apply seq_NoDup.
+  - cbn [c_fields c_nfields]. apply Forall_forall. intros f Inf. apply (Permutation_in _ (Permutation_sym SP)) in Inf.
+    assert (I2 : In (fd_index f) (map fd_index fs)) by (apply in_map; exact Inf).
+    rewrite Ix in I2. apply in_seq in I2. lia.
+  - cbn [c_size_ext]. lia.
+Qed.
+
